@@ -146,6 +146,12 @@ pub fn corpus(thorough: bool, seed: u64) -> Vec<Grammar> {
         G::Seq(vec![G::Sub(vec![lit("--format="), G::Alt(vec![lit("json"), lit("yaml")])]), lit("z")]),
         G::Seq(vec![G::Sub(vec![lit("--color="), G::Alt(vec![lit("always"), lit("never")])]), lit("y")]),
     ])));
+    // a definition holding a within-word expression referenced more than once (the same regex is
+    // interned once per reference), with and without a different within-word expression after it
+    out.push(wrap(&G::Seq(vec![nt("O"), nt("O")])));
+    out.push(wrap(&G::Alt(vec![G::Seq(vec![lit("add"), nt("O")]), G::Seq(vec![lit("rm"), nt("O")]), G::Seq(vec![lit("ls"), G::Sub(vec![lit("--sort="), G::Alt(vec![lit("name"), lit("size")])])])])));
+    out.push(wrap(&G::Alt(vec![G::Seq(vec![lit("ls"), G::Sub(vec![lit("--sort="), G::Alt(vec![lit("name"), lit("size")])])]), G::Seq(vec![lit("add"), nt("O")]), G::Seq(vec![lit("rm"), nt("O")])])));
+    out.push(wrap(&G::Seq(vec![G::Opt(Box::new(nt("O"))), G::Sub(vec![lit("--x="), nt("U")]), nt("O")])));
     // the same literal with an explicitly empty description / without one / with one
     out.push(wrap(&G::Alt(vec![G::Seq(vec![litd("a", ""), lit("f")]), G::Seq(vec![lit("a"), lit("g")])])));
     out.push(wrap(&G::Alt(vec![G::Seq(vec![litd("a", ""), lit("f")]), G::Seq(vec![litd("a", ""), lit("g")])])));
